@@ -537,59 +537,64 @@ def g_budget_splits(F, rng, tier):
     return out
 
 
-def short_eighths(F, rng, per):
-    """(w, q, r) with w < 10^19 such that w x 10^q is EXACTLY (m + r/8) ulps for a p-bit significand m, r = 1..7: the
-    value has at most p+3 significant bits, so Eisel-Lemire's product is exact (low word zero) and everything below the
-    rounding bit is visible in a few bits.  r = 4 is the tie; r = 2, 6 (quarter / three quarters) and the odd r are
-    the patterns a sloppy "only zeros were dropped" test confuses with it.  For every q of the tie window (+-2):
-      q < 0 : w = N 5^-q 2^j;   q >= 0: N = 5^q k, w = k 2^j     with N in [2^(p+2), 2^(p+3)), N = r (mod 8)"""
+def short_eighths(F, rng, per, extra=3, patterns=None):
+    """(w, q, r) with w < 10^19 such that w x 10^q is EXACTLY (m + r/2^extra) ulps for a p-bit significand m: the value
+    has at most p+extra significant bits, so Eisel-Lemire's product is exact (low word zero) and everything below the
+    rounding bit is visible in a few bits.  With extra = 3: r = 4 is the tie; r = 2, 6 (quarter / three quarters) and
+    the odd r are the patterns a sloppy "only zeros were dropped" test confuses with it.  With extra = 6 the patterns
+    are tie -+ 1/64, the quarters and the extremes.  Both parities of m.  For every q of the tie window (+-2):
+      q < 0 : w = N 5^-q 2^j;   q >= 0: N = 5^q k, w = k 2^j     with N in [2^(p+extra-1), 2^(p+extra)), N = pattern (mod 2^(extra+1))"""
     out = []
-    lo, hi = 1 << (F.p + 2), 1 << (F.p + 3)
+    lo, hi = 1 << (F.p + extra - 1), 1 << (F.p + extra)
+    M = 1 << (extra + 1)                                   # modulus: the parity of m (bit `extra`) together with r
+    pats = patterns if patterns is not None else [r for r in range(1, 1 << extra)]
     for q in range(F.tie_lo - 2, F.tie_hi + 3):
-        for r16 in range(1, 16):                      # the parity of m (bit 3) together with r (bits 0..2)
-            r = r16 & 7
-            if r == 0:
-                continue
-            for _ in range(per):
-                if q < 0:
-                    f5 = 5 ** (-q)
-                    nmax = min(hi, 10 ** 19 // f5)
-                    if nmax <= lo:
-                        continue
-                    n = (rng.randrange(lo, nmax) & ~15) | r16
-                    if not lo <= n < nmax:
-                        continue
-                    base = n * f5
-                else:
-                    f5 = 5 ** q
-                    kmin, kmax = -(-lo // f5), (hi - 1) // f5
-                    if kmax < kmin:
-                        continue
-                    want = (r16 * pow(f5, -1, 16)) % 16
-                    ks = [k for k in range(kmin, min(kmax, kmin + 64) + 1) if k % 16 == want] if kmax - kmin < 4096 else \
-                        [((rng.randrange(kmin, kmax) & ~15) | want)]
-                    ks = [k for k in ks if kmin <= k <= kmax]
-                    if not ks:
-                        continue
-                    base = rng.choice(ks)
-                    assert (base * f5) % 16 == r16
-                for j in sorted({0, 1, 2, rng.randrange(0, 10)}):
-                    w = base << j
-                    if w < 10 ** 19:
-                        out.append((w, q, r))
+        for par in (0, 1):
+            for r in pats:
+                rM = (par << extra) | r
+                for _ in range(per):
+                    if q < 0:
+                        f5 = 5 ** (-q)
+                        nmax = min(hi, 10 ** 19 // f5)
+                        if nmax <= lo:
+                            continue
+                        n = (rng.randrange(lo, nmax) & ~(M - 1)) | rM
+                        if not lo <= n < nmax:
+                            continue
+                        base = n * f5
+                    else:
+                        f5 = 5 ** q
+                        kmin, kmax = -(-lo // f5), (hi - 1) // f5
+                        if kmax < kmin:
+                            continue
+                        want = (rM * pow(f5, -1, M)) % M
+                        ks = [k for k in range(kmin, min(kmax, kmin + 8 * M) + 1) if k % M == want] if kmax - kmin < 4096 else \
+                            [((rng.randrange(kmin, kmax) & ~(M - 1)) | want)]
+                        ks = [k for k in ks if kmin <= k <= kmax]
+                        if not ks:
+                            continue
+                        base = rng.choice(ks)
+                        assert (base * f5) % M == rM
+                    for j in sorted({0, 1, 2, rng.randrange(0, 10)}):
+                        w = base << j
+                        if w < 10 ** 19:
+                            out.append((w, q, r))
     return out
 
 
 def g_short_eighths(F, rng, tier):
     """G20: the values above as parse inputs, each in up to three spellings (w, q), (w0, q-1), (w00, q-2)"""
     out = []
-    for (w, q, r) in short_eighths(F, rng, 1 if tier == "quick" else 6):
+    fam = [(x, "eighth%d" % x[2]) for x in short_eighths(F, rng, 1 if tier == "quick" else 6)]
+    # finer: tie -+ 1/64 of an ulp, the quarters, the extremes (p+6 significant bits)
+    fam += [(x, "sixtyfourth%d" % x[2]) for x in short_eighths(F, rng, 1 if tier == "quick" else 4, extra=6, patterns=[31, 32, 33, 16, 48, 1, 63])]
+    for ((w, q, r), name) in fam:
         for z in (0, 1, 2):
             ww = w * 10 ** z
             if ww < 10 ** 19:
                 ds = str(ww)
                 i, f, e = rng.choice(forms_keep(ds, q - z, rng))
-                out.append(mk(F.name, i, f, e, "G20:eighth%d" % r))
+                out.append(mk(F.name, i, f, e, "G20:" + name))
     return out
 
 
